@@ -379,7 +379,7 @@ func provablyNonNilError(c *chk.Ctx, arg ssa.Value, at ssa.Instruction) (bool, s
 			return false, fmt.Sprintf("package variable %s has %d store(s), %d from errors.New", g.Name(), n, good)
 		}
 	}
-	same := func(x ssa.Value) bool { return x == arg }
+	same := func(x ssa.Value) bool { return x == arg || ir.SameValue(x, arg) }
 	if ir.ProvesNonNil(ir.CondsAt(at.Block()), same) {
 		return true, "dominated by a != nil check"
 	}
@@ -611,7 +611,142 @@ func ruleReaderExitStops(c *chk.Ctx, owner string) {
 	}
 	chPath := chk.PathOfVar(ownerType(c, owner), ownerCh(c, owner))
 	n := 0
+	// a reader that handles one record per call and tells its caller's loop whether to go on:
+	// the value on which the loop continues (true/false), found at the call site
+	contKnown, contVal := readerContinueValue(c, reader)
+	alreadyStoppedConds := func(cs []ir.Cond) bool {
+		for _, cd := range cs {
+			if x, eq, ok := ir.NilCompare(cd.V); ok && chk.LoadsField(x, ownerCh(c, owner)) && eq == cd.Truth {
+				return true
+			}
+		}
+		return false
+	}
+	stopDominates := func(at ssa.Instruction) bool {
+		found := false
+		ir.Calls(at.Parent(), func(ci ssa.CallInstruction) {
+			for _, g := range calleesOf(c, ci) {
+				if g == stop && (ir.InstrDominates(ci, at) || ci == at) {
+					found = true
+				}
+			}
+		})
+		return found
+	}
+	// judgeBool: every way function h can yield the value that ends the reader loop (≠ cont)
+	// follows a call of the stop function, or sits on the already-stopped edge. A result that is
+	// the result of a private boolean helper is judged inside that helper.
+	var judgeBool func(h *ssa.Function, cont bool, depth int) (ok bool, exits int)
+	judgeBool = func(h *ssa.Function, cont bool, depth int) (bool, int) {
+		if depth > 3 {
+			return false, 1
+		}
+		type way struct {
+			v    ssa.Value
+			pred *ssa.BasicBlock
+			to   *ssa.BasicBlock
+			r    *ssa.Return
+			at   ssa.Instruction // for a value assigned to a result variable: the assignment
+			zero bool            // the result variable's initial false
+		}
+		var ways []way
+		for _, r := range ir.Returns(h) {
+			if len(r.Results) != 1 {
+				return false, 1
+			}
+			var expand func(v ssa.Value, pred, to *ssa.BasicBlock, at ssa.Instruction, d int)
+			expand = func(v ssa.Value, pred, to *ssa.BasicBlock, at ssa.Instruction, d int) {
+				if phi, isPhi := v.(*ssa.Phi); isPhi && d < 4 {
+					for i, e := range phi.Edges {
+						expand(e, phi.Block().Preds[i], phi.Block(), nil, d+1)
+					}
+					return
+				}
+				// a result variable (named result kept in memory because of a defer): one way per
+				// assignment, plus its initial value
+				cellOf := func(x ssa.Value) *ssa.Alloc {
+					if al, isAl := x.(*ssa.Alloc); isAl {
+						return al // NormCell's representative of a variable with several assignments
+					}
+					if u, isU := x.(*ssa.UnOp); isU && u.Op == token.MUL {
+						al, _ := u.X.(*ssa.Alloc)
+						return al
+					}
+					return nil
+				}
+				if d < 4 {
+					if al := cellOf(v); al != nil && al.Parent() == h {
+						for _, st := range ir.CellStores(al) {
+							if su, isSU := st.Val.(*ssa.UnOp); isSU && su.Op == token.MUL && su.X == ssa.Value(al) {
+								continue // `return done` re-storing the variable's own value
+							}
+							expand(st.Val, nil, nil, st, d+1)
+						}
+						ways = append(ways, way{r: r, zero: true})
+						return
+					}
+				}
+				ways = append(ways, way{v: v, pred: pred, to: to, r: r, at: at})
+			}
+			expand(ir.NormCell(ir.ReturnResult(r, 0)), nil, nil, nil, 0)
+		}
+		allOK, exits := true, 0
+		for _, w := range ways {
+			if w.zero {
+				if cont {
+					// the variable's initial false would end the loop: only acceptable if stopped
+					if !(stopDominates(w.r) || alreadyStoppedConds(ir.CondsAt(w.r.Block()))) {
+						exits++
+						allOK = false
+					}
+				}
+				continue
+			}
+			if k, isK := w.v.(*ssa.Const); isK && k.Value != nil && (k.Value.String() == "true") == cont {
+				continue
+			}
+			// a helper's verdict handed on
+			v, cv := w.v, cont
+			if u, isU := v.(*ssa.UnOp); isU && u.Op == token.NOT {
+				v, cv = u.X, !cont
+			}
+			if call, isCall := v.(*ssa.Call); isCall {
+				if g := call.Call.StaticCallee(); g != nil && c.P.InExt(reader, g) && g.Signature.Results().Len() == 1 && g.Signature.Results().At(0).Type().String() == "bool" {
+					okg, ng := judgeBool(g, cv, depth+1)
+					exits += ng
+					if !okg {
+						allOK = false
+					}
+					continue
+				}
+			}
+			exits++
+			okw := false
+			if w.at != nil {
+				okw = stopDominates(w.at) || alreadyStoppedConds(ir.CondsAt(w.at.Block()))
+			} else if w.pred == nil {
+				okw = stopDominates(w.r) || alreadyStoppedConds(ir.CondsAt(w.r.Block()))
+			} else {
+				last := w.pred.Instrs[len(w.pred.Instrs)-1]
+				okw = stopDominates(last) || alreadyStoppedConds(append(ir.CondsAt(w.pred), ir.EdgeConds(w.pred, w.to)...))
+			}
+			if !okw {
+				allOK = false
+			}
+		}
+		return allOK, exits
+	}
+	if contKnown {
+		okAll, exits := judgeBool(reader, contVal, 0)
+		if exits > 0 {
+			n++
+			c.Check(okAll, "RUN.readerexit", reader, owner+" reader exit", reader.Pos(), "the reader tells its loop to end only after calling the stop function (or on the edge where "+chPath.String()+" is already nil)", "the "+owner+"'s reader can exit without stopping the "+owner+": pending operations would never complete, the stop hook would not run and later operations would transmit on a dead connection")
+		}
+	}
 	for _, r := range ir.Returns(reader) {
+		if contKnown {
+			break
+		}
 		if owner == "client" {
 			// the reader loop continues while the reader function returns nil
 			if len(r.Results) == 1 && ir.IsNilConst(ir.ReturnResult(r, 0)) {
@@ -619,57 +754,29 @@ func ruleReaderExitStops(c *chk.Ctx, owner string) {
 			}
 		}
 		n++
-		stopped := false
-		ir.Calls(reader, func(ci ssa.CallInstruction) {
-			for _, g := range calleesOf(c, ci) {
-				if g == stop && ir.InstrDominates(ci, r) {
-					stopped = true
-				}
-			}
-		})
-		alreadyStopped := func(b *ssa.BasicBlock) bool {
-			for _, cd := range ir.CondsAt(b) {
-				if x, eq, ok := ir.NilCompare(cd.V); ok && chk.LoadsField(x, ownerCh(c, owner)) && eq == cd.Truth {
-					return true
-				}
-			}
-			return false
-		}
+		stopped := stopDominates(r)
+		alreadyStopped := func(b *ssa.BasicBlock) bool { return alreadyStoppedConds(ir.CondsAt(b)) }
 		if !stopped && alreadyStopped(r.Block()) {
 			stopped = true
 		}
 		if !stopped {
 			// the decision to exit may be made by a private helper that reports it as a boolean:
-			// every return of the helper with that value must follow a stop (or an already-stopped test)
+			// every way the helper yields that value must follow a stop (or an already-stopped test)
 			for _, cd := range ir.CondsAt(r.Block()) {
-				call, ok := cd.V.(*ssa.Call)
+				v, truth := cd.V, cd.Truth
+				if u, isU := v.(*ssa.UnOp); isU && u.Op == token.NOT {
+					v, truth = u.X, !truth
+				}
+				call, ok := ir.NormCell(v).(*ssa.Call)
 				if !ok || call.Call.StaticCallee() == nil || !c.P.InExt(reader, call.Call.StaticCallee()) {
 					continue
 				}
 				h := call.Call.StaticCallee()
-				all, n := true, 0
-				for _, hr := range ir.Returns(h) {
-					k, isK := ir.ReturnResult(hr, 0).(*ssa.Const)
-					if !isK || k.Value == nil || (k.Value.String() == "true") != cd.Truth {
-						if !isK {
-							all = false
-						}
-						continue
-					}
-					n++
-					okr := alreadyStopped(hr.Block())
-					ir.Calls(h, func(ci ssa.CallInstruction) {
-						for _, g := range calleesOf(c, ci) {
-							if g == stop && ir.InstrDominates(ci, hr) {
-								okr = true
-							}
-						}
-					})
-					if !okr {
-						all = false
-					}
+				if h.Signature.Results().Len() != 1 || h.Signature.Results().At(0).Type().String() != "bool" {
+					continue
 				}
-				if all && n > 0 {
+				okh, nh := judgeBool(h, !truth, 1)
+				if okh && nh > 0 {
 					stopped = true
 				}
 			}
@@ -679,4 +786,67 @@ func ruleReaderExitStops(c *chk.Ctx, owner string) {
 	if n == 0 {
 		c.Undecided("RUN.readerexit", reader, owner+" reader exit", reader.Pos(), "no exit found in the reader")
 	}
+}
+
+// readerContinueValue: when reader returns a single bool that a loop in its
+// (sole) caller tests to decide whether to call it again, report the value on
+// which the loop goes on.
+func readerContinueValue(c *chk.Ctx, reader *ssa.Function) (known, val bool) {
+	res := reader.Signature.Results()
+	if res.Len() != 1 || res.At(0).Type().String() != "bool" {
+		return false, false
+	}
+	site, ok := c.P.SoleCaller(reader)
+	if !ok {
+		return false, false
+	}
+	call, isCall := site.Instr.(*ssa.Call)
+	if !isCall {
+		return false, false
+	}
+	for _, r := range *call.Referrers() {
+		var iff *ssa.If
+		neg := false
+		switch x := r.(type) {
+		case *ssa.If:
+			iff = x
+		case *ssa.UnOp:
+			if x.Op == token.NOT {
+				for _, r2 := range *x.Referrers() {
+					if i2, isIf := r2.(*ssa.If); isIf {
+						iff, neg = i2, true
+					}
+				}
+			}
+		}
+		if iff == nil {
+			continue
+		}
+		back := func(b *ssa.BasicBlock) bool {
+			seen := map[*ssa.BasicBlock]bool{}
+			var walk func(x *ssa.BasicBlock) bool
+			walk = func(x *ssa.BasicBlock) bool {
+				if x == call.Block() {
+					return true
+				}
+				if seen[x] {
+					return false
+				}
+				seen[x] = true
+				for _, s := range x.Succs {
+					if walk(s) {
+						return true
+					}
+				}
+				return false
+			}
+			return walk(b)
+		}
+		t, f := back(iff.Block().Succs[0]), back(iff.Block().Succs[1])
+		if t == f {
+			continue
+		}
+		return true, t != neg
+	}
+	return false, false
 }
